@@ -59,6 +59,9 @@ theorem prefix_eq_of_length {a b : Bytes} (h : a <+: b) (hl : a.length = b.lengt
   have : t = [] := List.eq_nil_of_length_eq_zero this
   subst this; simp
 
+theorem fileWrite_end (sp r : Bytes) : fileWrite sp sp.length r = sp ++ r := by
+  simp [fileWrite]
+
 /-! ## receiver states by phase -/
 
 /-- `_transfer_data` has not attached the consumer yet: records queue up -/
@@ -68,18 +71,17 @@ def idleSt {τ : Type} (x : Nat) (dm cl : Bool) (q : List Bytes) : Rx τ :=
 /-- the consumer is attached and has written `sp` -/
 def actSt {τ : Type} (x : Nat) (dm cl : Bool) (sp : Bytes) (q : List Bytes) (st : Bool) : Rx τ :=
   { xfersize := x, dirMode := dm, inbound := q, consumer := true, written := sp.length, expected := some x,
-    cdef := true, dfr := .waiting, connLost := cl, spool := sp, hashed := sp, tmpExists := !dm, started := st }
+    cdef := true, dfr := .waiting, connLost := cl, spool := sp, disk := sp, hashed := sp, tmpExists := !dm, started := st }
 
 /-- the byte count has been reached: consumer detached, Deferred fired -/
 def firedSt {τ : Type} (x : Nat) (dm cl : Bool) (sp : Bytes) (q : List Bytes) (st : Bool) : Rx τ :=
   { xfersize := x, dirMode := dm, inbound := q, consumer := false, written := sp.length, expected := none,
-    cdef := false, dfr := .fired sp.length, connLost := cl, spool := sp, hashed := sp, tmpExists := !dm, started := st }
+    cdef := false, dfr := .fired sp.length, connLost := cl, spool := sp, disk := sp, hashed := sp, tmpExists := !dm, started := st }
 
 theorem writeToConsumer_act {τ : Type} (x : Nat) (dm cl : Bool) (sp r : Bytes) (q : List Bytes) (st : Bool) :
     writeToConsumer (actSt (τ := τ) x dm cl sp q st) r =
       if sp.length + r.length ≥ x then firedSt x dm cl (sp ++ r) q st else actSt x dm cl (sp ++ r) q st := by
-  simp only [writeToConsumer, actSt, firedSt, List.length_append]
-  by_cases h : sp.length + r.length ≥ x <;> simp [h]
+  simp only [writeToConsumer, actSt, firedSt, List.length_append, fileWrite_end]
 
 theorem drain_fired {τ : Type} (x : Nat) (dm cl : Bool) (sp : Bytes) (q q' : List Bytes) (st : Bool) :
     drain (firedSt (τ := τ) x dm cl sp q st) q' = firedSt x dm cl sp q' st := by
@@ -400,9 +402,9 @@ theorem inv_foldl {τ : Type} (H : Hash) (Z : Zip τ) (x : Nat) (dm : Bool) :
       have := ih rs c true _ (inv_lost H Z x dm c l rs s h)
       simpa [records, sawConnect, sawLost, evStep] using this
 
-theorem inv_run {τ : Type} (H : Hash) (Z : Zip τ) (x : Nat) (dm : Bool) (evs : List Ev) :
-    Inv H Z x dm (records evs) (sawConnect evs) (sawLost evs) (runRx (τ := τ) H Z x dm evs) := by
-  have h0 : Inv H Z x dm [] false false (rxOpen (τ := τ) x dm) := Inv.idle false [] rfl
+theorem inv_run {τ : Type} (H : Hash) (Z : Zip τ) (x : Nat) (dm : Bool) (stale : Option Bytes) (evs : List Ev) :
+    Inv H Z x dm (records evs) (sawConnect evs) (sawLost evs) (runRx (τ := τ) H Z x dm stale evs) := by
+  have h0 : Inv H Z x dm [] false false (rxOpen (τ := τ) x dm stale) := Inv.idle false [] rfl
   have := inv_foldl H Z x dm evs [] false false _ h0
   simpa [runRx] using this
 
@@ -484,8 +486,8 @@ theorem inv_complete {τ : Type} {H : Hash} {Z : Zip τ} {x : Nat} {dm c l : Boo
         subst this
         exact ⟨by rw [b], b', c3⟩
 
-theorem runRx_append {τ : Type} (H : Hash) (Z : Zip τ) (x : Nat) (dm : Bool) (evs : List Ev) (e : Ev) :
-    runRx (τ := τ) H Z x dm (evs ++ [e]) = evStep H Z (runRx H Z x dm evs) e := by
+theorem runRx_append {τ : Type} (H : Hash) (Z : Zip τ) (x : Nat) (dm : Bool) (stale : Option Bytes) (evs : List Ev) (e : Ev) :
+    runRx (τ := τ) H Z x dm stale (evs ++ [e]) = evStep H Z (runRx H Z x dm stale evs) e := by
   simp [runRx, List.foldl_append]
 
 end WV.Proofs.C04
